@@ -36,6 +36,7 @@ import (
 	"github.com/drand/drand/v2/internal/chain/boltdb"
 	"github.com/drand/drand/v2/internal/chain/memdb"
 	"github.com/drand/drand/v2/internal/net"
+	"github.com/drand/drand/v2/internal/vfhook"
 	proto "github.com/drand/drand/v2/protobuf/drand"
 )
 
@@ -109,6 +110,7 @@ type vfbConfig struct {
 
 type vfbNode struct {
 	pos      int // position in net.nodes == group index
+	net      *vfbNet
 	addr     string
 	pair     *key.Pair
 	share    *key.Share
@@ -154,6 +156,8 @@ type vfbNet struct {
 	onDeliver func(to *vfbNode, from int, p *proto.PartialBeaconPacket, src string, seq int64)
 	onEmit    func(from *vfbNode, to int, p *proto.PartialBeaconPacket, clk int64)
 	onSyncSend func(server *vfbNode, b *proto.BeaconPacket)
+	onHook     func(name string, n *vfbNode, args []any)
+	id         int
 	// adversary-served sync streams: addr -> function
 	syncServers map[string]func(ctx context.Context, req *proto.SyncRequest, out chan<- *proto.BeaconPacket)
 	stopped  int32
@@ -164,13 +168,53 @@ type vfbQueued struct {
 	p        *proto.PartialBeaconPacket
 }
 
-func vfbAddr(i int) string { return fmt.Sprintf("10.77.%d.%d:%d", i/200, 1+i%200, 4000+i) }
+var vfbNetCounter int64
+
+// addresses are unique per network instance so that process-global hooks can be routed
+func vfbAddrOf(netID, i int) string {
+	return fmt.Sprintf("10.%d.%d.%d:%d", 1+(netID/250)%250, netID%250, 1+i, 4000+i)
+}
+
+// ---------------------------------------------------------------- hook routing (vfhook is process-global)
+
+var (
+	vfbHookOnce  sync.Once
+	vfbHookMu    sync.RWMutex
+	vfbHookNodes = map[string]*vfbNode{}
+)
+
+func vfbInstallHooks() {
+	vfbHookOnce.Do(func() {
+		vfhook.SetPoint(func(name string, args ...any) {
+			if len(args) == 0 {
+				return
+			}
+			addr, ok := args[0].(string)
+			if !ok {
+				return
+			}
+			vfbHookMu.RLock()
+			n := vfbHookNodes[addr]
+			vfbHookMu.RUnlock()
+			if n == nil || n.net == nil {
+				return
+			}
+			n.net.mu.Lock()
+			f := n.net.onHook
+			n.net.mu.Unlock()
+			if f != nil {
+				f(name, n, args[1:])
+			}
+		})
+	})
+}
 
 // vfbNewNet creates keys, shares, group and nodes (handlers are created by StartAll/StartNode).
 func vfbNewNet(run *vfRun, cfg vfbConfig, start time.Time) (*vfbNet, error) {
 	rng := vfNewRng(cfg.Seed)
 	sch := cfg.Scheme
-	nt := &vfbNet{cfg: cfg, run: run, rng: rng, byAddr: map[string]*vfbNode{}, syncServers: map[string]func(context.Context, *proto.SyncRequest, chan<- *proto.BeaconPacket){}}
+	vfbInstallHooks()
+	nt := &vfbNet{id: int(atomic.AddInt64(&vfbNetCounter, 1)), cfg: cfg, run: run, rng: rng, byAddr: map[string]*vfbNode{}, syncServers: map[string]func(context.Context, *proto.SyncRequest, chan<- *proto.BeaconPacket){}}
 	base := os.TempDir()
 	if st, err := os.Stat("/dev/shm"); err == nil && st.IsDir() {
 		base = "/dev/shm"
@@ -192,18 +236,21 @@ func vfbNewNet(run *vfRun, cfg vfbConfig, start time.Time) (*vfbNet, error) {
 	}
 	for i := 0; i < cfg.N; i++ {
 		k := sch.KeyGroup.Scalar().Pick(random.New(rng))
-		pair := &key.Pair{Key: k, Public: &key.Identity{Key: sch.KeyGroup.Point().Mul(k, nil), Addr: vfbAddr(i), Scheme: sch}}
+		pair := &key.Pair{Key: k, Public: &key.Identity{Key: sch.KeyGroup.Point().Mul(k, nil), Addr: vfbAddrOf(nt.id, i), Scheme: sch}}
 		if err := pair.SelfSign(); err != nil {
 			return nil, err
 		}
 		nodes[i] = &key.Node{Identity: pair.Public, Index: uint32(i)}
-		nd := &vfbNode{pos: i, addr: pair.Public.Addr, pair: pair, honest: !corrupted[i],
+		nd := &vfbNode{pos: i, net: nt, addr: pair.Public.Addr, pair: pair, honest: !corrupted[i],
 			share:  &key.Share{DistKeyShare: kdkg.DistKeyShare{Share: shares[i], Commits: commits}, Scheme: sch},
 			clk:    clock.NewFakeClockAt(start),
 			dir:    fmt.Sprintf("%s/n%d", tmp, i),
 			logger: vfbNewLogger(fmt.Sprintf("n%d", i))}
 		nt.nodes = append(nt.nodes, nd)
 		nt.byAddr[nd.addr] = nd
+		vfbHookMu.Lock()
+		vfbHookNodes[nd.addr] = nd
+		vfbHookMu.Unlock()
 	}
 	nt.genesis = start.Add(cfg.GenesisIn).Unix()
 	nt.group = &key.Group{Threshold: cfg.Thr, Period: cfg.Period, Scheme: sch, ID: cfg.BeaconID, CatchupPeriod: cfg.Catchup,
@@ -296,9 +343,17 @@ func (nt *vfbNet) StopNode(n *vfbNode) {
 
 func (nt *vfbNet) Close() {
 	atomic.StoreInt32(&nt.stopped, 1)
+	nt.mu.Lock()
+	nt.onHook = nil
+	nt.mu.Unlock()
 	for _, n := range nt.nodes {
 		nt.StopNode(n)
 	}
+	vfbHookMu.Lock()
+	for _, n := range nt.nodes {
+		delete(vfbHookNodes, n.addr)
+	}
+	vfbHookMu.Unlock()
 	os.RemoveAll(nt.tmp)
 }
 
@@ -522,7 +577,7 @@ func (nt *vfbNet) Deliver(from int, to *vfbNode, in *proto.PartialBeaconPacket, 
 		nt.onDeliver(to, from, in, src, seq)
 	}
 	nt.run.Count("partials_delivered", 1)
-	fromAddr := vfbAddr(from)
+	fromAddr := vfbAddrOf(nt.id, from)
 	_, err := to.handler.ProcessPartialBeacon(vfbPeerCtx(context.Background(), fromAddr), in)
 	es := ""
 	if err != nil {
